@@ -513,11 +513,15 @@ def run_subprocess_case(case):
                     os.remove(os.path.join(d, fn))
                 except OSError:
                     pass
-        pre = _pre(tool, args)
-        r = cli.run_subprocess(tool, args, stdin, cwd=d)
         what = "(process) {} {}".format(tool, ' '.join(case['args']))
-        # a real process reports an escaping exception as a traceback + exit 1
-        verdict = judge(tool, args, r, what, pre)
+        os.chdir(d)          # relative output names are relative to the directory the process runs in
+        try:
+            pre = _pre(tool, args)
+            r = cli.run_subprocess(tool, args, stdin, cwd=d)
+            # a real process reports an escaping exception as a traceback + exit 1
+            verdict = judge(tool, args, r, what, pre)
+        finally:
+            os.chdir(cwd0)
         random.seed(1)
         cwd = os.getcwd()
         os.chdir(d)
